@@ -2,6 +2,7 @@ package main
 
 import (
 	"fmt"
+	"go/token"
 	"go/types"
 	"strings"
 
@@ -327,8 +328,17 @@ func checkInvalidate(p *Prog, r *Report, dts *ssa.Function, first *ssa.Call, del
 				}
 				return false
 			}
+			// The two builder calls after the field loop can only fail for an undefined set type / a failing template
+			// header write. That is an exception only while it is TRUE: it is re-established from the builders' code on
+			// every run (a PrepareRecord that can refuse a template makes the exit feasible, and then it must invalidate).
+			infeasible, whyFeasible := builderErrorsInfeasible(p, dts)
+			r.Check(infeasible, "R-GATE.invalidate", fnKey(dts)+": set-builder errors after the field loop cannot happen", p.pos(dts.Pos()),
+				"PrepareSet fails only for Undefined (called with the constant Template); AddRecordV2 fails only through PrepareRecord (always nil for template records) or an unsupported set type",
+				"a set-builder call after the field loop can now fail ("+whyFeasible+"), and that error exit does not invalidate the stored template: the older template stays in force", true)
 			exempt := func(rt *ssa.Return) bool {
-				// error value is the result of an entities.Set builder call (infeasible, named exceptions)
+				if !infeasible {
+					return false
+				}
 				last := rt.Results[len(rt.Results)-1]
 				if c, ok := last.(*ssa.Call); ok {
 					n := calleeName(&c.Call)
@@ -554,4 +564,97 @@ func checkInfoElementImmutable(p *Prog, r *Report, rule string) {
 	if n == 0 {
 		r.Undecided(rule, "anchor: stores to InfoElement fields", "pkg/entities/ie.go", "none found (NewInfoElement should initialise a fresh element)")
 	}
+}
+
+// builderErrorsInfeasible re-derives, from the builders' own code, that the error returns of PrepareSet(Template, id)
+// and AddRecordV2 on a template set cannot be taken.
+func builderErrorsInfeasible(p *Prog, dts *ssa.Function) (bool, string) {
+	ps := p.Fn("(*pkg/entities.set).PrepareSet")
+	av2 := p.Fn("(*pkg/entities.set).AddRecordV2")
+	if ps == nil || av2 == nil {
+		return false, "PrepareSet / AddRecordV2 not found"
+	}
+	// PrepareSet: every error return is under the fact setType(param) == Undefined(255); the decoder passes a constant other than 255
+	undefinedOnly := true
+	eachInstr(ps, func(in ssa.Instruction) {
+		rt, ok := in.(*ssa.Return)
+		if !ok || !isErrorReturn(rt) {
+			return
+		}
+		okF := false
+		for _, f := range blockFacts(rt.Block()) {
+			if f.X == ssa.Value(ps.Params[1]) && f.Op == token.EQL {
+				if c, ok := constInt(f.Y); ok && c == 255 {
+					okF = true
+				}
+			}
+		}
+		if !okF {
+			undefinedOnly = false
+		}
+	})
+	if !undefinedOnly {
+		return false, "PrepareSet has an error return that is not limited to the Undefined set type"
+	}
+	constArg := false
+	for _, c := range callsTo(dts, "(*pkg/entities.set).PrepareSet") {
+		if v, ok := constInt(callOf(c).Args[1]); ok && v != 255 {
+			constArg = true
+		}
+	}
+	if !constArg {
+		return false, "the template decoder does not pass a constant defined set type to PrepareSet"
+	}
+	// AddRecordV2: an error return is either PrepareRecord's error or the unsupported-type fallback
+	why := ""
+	eachInstr(av2, func(in ssa.Instruction) {
+		rt, ok := in.(*ssa.Return)
+		if !ok || !isErrorReturn(rt) {
+			return
+		}
+		last := rt.Results[len(rt.Results)-1]
+		if c, ok := last.(*ssa.Call); ok && c.Call.IsInvoke() && c.Call.Method.Name() == "PrepareRecord" {
+			return
+		}
+		if ex, ok := last.(*ssa.Extract); ok {
+			if c, ok := ex.Tuple.(*ssa.Call); ok && c.Call.IsInvoke() && c.Call.Method.Name() == "PrepareRecord" {
+				return
+			}
+		}
+		// fallback: neither Data nor Template (two != facts on the loaded setType)
+		ne := 0
+		for _, f := range blockFacts(rt.Block()) {
+			if f.Op == token.NEQ {
+				if _, fn, _, ok := loadedField(f.X); ok && fn == "setType" {
+					ne++
+				}
+			}
+		}
+		if ne < 2 {
+			why = "AddRecordV2 has an error return other than PrepareRecord's error and the unsupported-set-type fallback"
+		}
+	})
+	if why != "" {
+		return false, why
+	}
+	// every PrepareRecord implementation of a template record returns nil only
+	n := 0
+	for _, f := range p.RepoFns {
+		if f.Name() != "PrepareRecord" || !keyInPkg(fnKey(f), "pkg/entities") || !strings.Contains(fnKey(f), "templateRecord") {
+			continue
+		}
+		n++
+		eachInstr(f, func(in ssa.Instruction) {
+			if rt, ok := in.(*ssa.Return); ok && isErrorReturn(rt) {
+				why = fnKey(f) + " can return an error"
+			}
+		})
+	}
+	if n == 0 {
+		return false, "templateRecord.PrepareRecord not found"
+	}
+	if why != "" {
+		return false, why
+	}
+	return true, ""
 }
